@@ -26,7 +26,7 @@ func (s ImgSpec) String() string {
 	return fmt.Sprintf("%s/%dx%d/%s/%s/c%d/s%x", s.Family, s.W, s.H, s.Alpha, s.Type, s.Colors, s.Seed&0xffff)
 }
 
-var imgFamilies = []string{"flat", "hgrad", "vgrad", "dgrad", "smooth", "noise", "pal", "text"}
+var imgFamilies = []string{"flat", "hgrad", "vgrad", "dgrad", "smooth", "noise", "pal", "text", "regions", "patch"}
 var alphaPatterns = []string{"opaque", "transparent", "blocks", "stripes", "single", "levels", "gradient", "noise"}
 
 // GenImgSpec draws a spec. maxSide bounds the size; wantAlpha: 0 never, 1 maybe, 2 always.
@@ -83,6 +83,25 @@ func GenImgSpec(r *RNG, minSide, maxSide int, wantAlpha int) ImgSpec {
 		}
 	case 5:
 		s.Type = "nrgba64"
+	case 6:
+		switch r.Intn(4) {
+		case 0:
+			s.Type = "nrgba64sub"
+		case 1:
+			s.Type = "rgbasub"
+			switch s.Alpha {
+			case "levels", "gradient", "noise", "single":
+				s.Alpha = "blocks"
+			}
+		case 2:
+			if s.Alpha == "opaque" {
+				s.Type = "graysub"
+			}
+		default:
+			if s.Family == "pal" && s.Colors <= 200 {
+				s.Type = "palsub"
+			}
+		}
 	}
 	return s
 }
@@ -237,6 +256,61 @@ func Generate(s ImgSpec) image.Image {
 				}
 			}
 		}
+	case "regions":
+		// a few large regions aligned to 16 px with very different statistics (many
+		// prefix-code groups, tile-map corner cases)
+		kinds := []int{r.Intn(4), r.Intn(4), r.Intn(4), r.Intn(4), r.Intn(4), r.Intn(4)}
+		cols := [][3]uint8{base, base2, {uint8(r.Next()), uint8(r.Next()), uint8(r.Next())}}
+		split := r.Intn(3) // 0 horizontal bands, 1 quadrants, 2 vertical bands
+		band := 16 * (1 + r.Intn(4))
+		for y := 0; y < h; y++ {
+			for x := 0; x < w; x++ {
+				var reg int
+				switch split {
+				case 0:
+					reg = (y / band) % 6
+				case 1:
+					reg = (x/band)%2 + 2*((y/band)%3)
+				default:
+					reg = (x / band) % 6
+				}
+				switch kinds[reg] {
+				case 0:
+					set(x, y, cols[reg%3])
+				case 1:
+					v := r.Next()
+					set(x, y, [3]uint8{uint8(v), uint8(v >> 8), uint8(v >> 16)})
+				case 2:
+					set(x, y, lerp(x%64, 63))
+				default:
+					set(x, y, cols[(x/3+y/5)%3])
+				}
+			}
+		}
+	case "patch":
+		// statistically uniform picture with one small textured patch
+		bg := r.Intn(3)
+		for y := 0; y < h; y++ {
+			for x := 0; x < w; x++ {
+				switch bg {
+				case 0:
+					set(x, y, base)
+				case 1:
+					set(x, y, lerp(x, w-1))
+				default:
+					v := r.Next()
+					set(x, y, [3]uint8{base[0] + uint8(v%3), base[1] + uint8((v>>8)%3), base[2]})
+				}
+			}
+		}
+		pw, ph := 1+r.Intn(imax(1, imin(24, w))), 1+r.Intn(imax(1, imin(24, h)))
+		px, py := r.Intn(w-pw+1), r.Intn(h-ph+1)
+		for y := py; y < py+ph; y++ {
+			for x := px; x < px+pw; x++ {
+				v := r.Next()
+				set(x, y, [3]uint8{uint8(v), uint8(v >> 8), uint8(v >> 16)})
+			}
+		}
 	default:
 		panic("unknown image family " + s.Family)
 	}
@@ -388,6 +462,60 @@ func wrapType(p *image.NRGBA, s ImgSpec, r *RNG) image.Image {
 			}
 		}
 		return out
+	case "nrgba64sub", "rgbasub", "graysub", "palsub":
+		// the same pixels as a view with non-zero origin into a larger image of that type
+		inner := s
+		inner.Type = map[string]string{"nrgba64sub": "nrgba64", "rgbasub": "rgba", "graysub": "gray", "palsub": "paletted"}[s.Type]
+		ox, oy := 1+r.Intn(5), 1+r.Intn(5)
+		bw, bh := w+ox+1+r.Intn(3), h+oy+1+r.Intn(3)
+		small := wrapType(p, inner, r)
+		switch sm := small.(type) {
+		case *image.NRGBA64:
+			big := image.NewNRGBA64(image.Rect(0, 0, bw, bh))
+			for i := range big.Pix {
+				big.Pix[i] = uint8(r.Next())
+			}
+			for y := 0; y < h; y++ {
+				for x := 0; x < w; x++ {
+					big.SetNRGBA64(x+ox, y+oy, sm.NRGBA64At(x, y))
+				}
+			}
+			return big.SubImage(image.Rect(ox, oy, ox+w, oy+h))
+		case *image.RGBA:
+			big := image.NewRGBA(image.Rect(0, 0, bw, bh))
+			for i := range big.Pix {
+				big.Pix[i] = 255
+			}
+			for y := 0; y < h; y++ {
+				for x := 0; x < w; x++ {
+					big.SetRGBA(x+ox, y+oy, sm.RGBAAt(x, y))
+				}
+			}
+			return big.SubImage(image.Rect(ox, oy, ox+w, oy+h))
+		case *image.Gray:
+			big := image.NewGray(image.Rect(0, 0, bw, bh))
+			for i := range big.Pix {
+				big.Pix[i] = uint8(r.Next())
+			}
+			for y := 0; y < h; y++ {
+				for x := 0; x < w; x++ {
+					big.SetGray(x+ox, y+oy, sm.GrayAt(x, y))
+				}
+			}
+			return big.SubImage(image.Rect(ox, oy, ox+w, oy+h))
+		case *image.Paletted:
+			big := image.NewPaletted(image.Rect(0, 0, bw, bh), sm.Palette)
+			for i := range big.Pix {
+				big.Pix[i] = uint8(r.Intn(len(sm.Palette)))
+			}
+			for y := 0; y < h; y++ {
+				for x := 0; x < w; x++ {
+					big.SetColorIndex(x+ox, y+oy, sm.ColorIndexAt(x, y))
+				}
+			}
+			return big.SubImage(image.Rect(ox, oy, ox+w, oy+h))
+		}
+		return small
 	case "sub":
 		// view with non-zero origin and larger stride into a bigger buffer filled with junk
 		ox, oy := 1+r.Intn(5), 1+r.Intn(5)
@@ -466,4 +594,11 @@ func DigestImage(img image.Image) string {
 func DigestBytes(b []byte) string {
 	s := sha256.Sum256(b)
 	return fmt.Sprintf("%x", s[:12])
+}
+
+func imin(a, b int) int {
+	if a < b {
+		return a
+	}
+	return b
 }
